@@ -428,7 +428,7 @@ def judge_script(vh, steps, work, tag, cfg, given_recs=None):
     """Verdict for one script, hang-robust: returns (list of (prop, detail, recs), inconclusive reason or None)."""
     recs = given_recs
     out = []
-    for attempt in (0, 1):
+    for attempt in (0, 1, 2):
         if recs is None:
             recs = isolate(vh, steps, work, "%s-r%d" % (tag, attempt), cfg["step_ms"], cfg["hang_ms"])
         viols, drifts, _ = validate(recs, work, "%s-v%d" % (tag, attempt))
@@ -439,15 +439,22 @@ def judge_script(vh, steps, work, tag, cfg, given_recs=None):
             return [(p, r, recs) for r, p in hard], None
         if not hang and not timeouts:
             return [], None
+        for t in timeouts:
+            vlib.log("[C20] attempt %d: step %d %s of script %s did not complete: %s" % (
+                attempt, t["i"], step_str((t["name"], t["arg"], t.get("c", 0), t.get("k", 0))),
+                ";".join(step_str(a) for a in steps), t["timeout"]))
         if attempt == 0:
             recs = None      # first sighting of a hang / timeout: once more, alone, doubled timeouts
             continue
         if hang:
             return [(p, r, recs) for r, p in hang], None
         t = timeouts[0]
-        if t["name"] == "Submit":
+        if t["name"] in ("Submit", "SubmitSw"):
             return [("NoHang", t, recs)], None
-        return [], "step %d %s(%s) of script %s did not complete twice: %s" % (t["i"], t["name"], t["arg"], steps, t["timeout"])
+        if attempt == 1:
+            recs = None      # a wait on a hook that is not a Submit: a third and last time
+            continue
+        return [], "step %d %s(%s) of script %s did not complete three times: %s" % (t["i"], t["name"], t["arg"], steps, t["timeout"])
     return out, None
 
 
